@@ -99,6 +99,26 @@ def idempotence(rng, res, tier, shard, nshards):
             if st1 != (False, False, False) or st2 != (False, False, False):
                 res.fail(case, 'C05: storing a representable value raised a status flag', expected=(False, False, False), got=(st1, st2))
 
+def decimal_long(rng, n, res):
+    """decimal.Decimal inputs with MORE digits than a double holds, a hair off a representable value or off a tie (fraction lengths of
+    either sign): the decimal is an exact rational, rounded once by the configured mode"""
+    from decimal import Decimal, getcontext
+    cases = []
+    for _ in range(n):
+        s, nw, nf = S.random_format(rng, max_word=24)
+        lo, hi = S.fmt_bounds(s, nw)
+        code = rng.randint(max(lo, -2 ** 20) + 1, min(hi, 2 ** 20) - 1) if hi - lo > 2 else 0
+        half = rng.choice([0, 0, 1])                     # on a representable value, or on a tie
+        eps = rng.choice([1, -1]) * Fraction(1, 10 ** rng.choice([20, 22, 25]))
+        v = (Fraction(2 * code + half, 2)) / Fraction(2) ** nf + eps * (Fraction(1) / Fraction(2) ** nf)
+        # v as an exact decimal string (v is a dyadic rational plus a decimal fraction: finitely many decimal digits)
+        getcontext().prec = 400
+        d = Decimal(v.numerator) / Decimal(v.denominator)
+        if Fraction(d) != v: continue
+        cases.append({'s': s, 'nw': nw, 'nf': nf, 'r': rng.choice(RMODES), 'o': rng.choice(OMODES), 'carrier': rng.choice(['decimal_long', 'decimal_long_list']),
+                      'route': rng.choice(S.ROUTES[:3]), 'vals': [format(d, 'f')], 'setmode': 'slice'})
+    check_relations(cases, res, 'D:long-decimals')
+
 def shard(shard, nshards, rng, tier, extra):
     res = Result()
     nwmax = 3 if tier == 'quick' else 6
@@ -130,6 +150,7 @@ def shard(shard, nshards, rng, tier, extra):
                       'route': rng.choice(S.ROUTES[:3]), 'vals': vals, 'setmode': 'slice'})
     check_relations(cases, res, 'T:vanishing-next-to-zeros', keep_array=True)
     idempotence(rng, res, tier, shard, nshards)
+    decimal_long(rng, (600 if tier == 'quick' else 15000) // nshards, res)
     res.exhaustive = True
     return res
 
